@@ -464,6 +464,39 @@ class Run:
         return 1 if nviol else 0
 
 
+def standard_start(run, propfiles, extract_v=None, driver_ml=None, progs=None, variant="plain", extra_ml=("ocaml/fops.ml",)):
+    """The common first half of every check: prove the property file(s), extract+build the model,
+    build the harness programs against /repo's current tree.  Returns (model_exe, {name: exe}) or
+    None when the tie cannot even be built (already reported as a violation without failing input)."""
+    if isinstance(propfiles, str):
+        propfiles = [propfiles]
+    axioms = {}
+    for pf in propfiles:
+        res = run.prove(pf)
+        axioms.update(res["assumptions"])
+    run.cov["trusted_base"] = TRUSTED_COMMON + ["axioms per theorem (Print Assumptions): " + json.dumps(axioms)]
+    run.assumptions += TRUSTED_COMMON
+    model = None
+    if extract_v:
+        try:
+            model = extract_model(run.pid, extract_v, driver_ml, list(extra_ml))
+        except ModelBroken as e:
+            run.violation("tie:model-build", "the model no longer extracts/compiles: %s" % str(e)[-800:],
+                          {"kind": "model-build", "log": str(e)[-3000:]}, found_input=False)
+            return None
+    exes = {}
+    try:
+        for name, srcs in (progs or {}).items():
+            exes[name] = build_prog(name, srcs, variant)
+    except InfraError as e:
+        if "compilation of /repo failed" in str(e):
+            raise
+        run.violation("tie:harness-build", "the harness no longer builds against the tree: %s" % str(e)[-800:],
+                      {"kind": "harness-build", "log": str(e)[-3000:]}, found_input=False)
+        return None
+    return model, exes
+
+
 TRUSTED_COMMON = [
     "Coq 8.16.1 kernel (coqc); vm_compute is used inside proofs; native_compute is not used",
     "extraction to OCaml with the directives of ExtrOcamlBasic only (bool, option, list, prod, unit, sumbool); Z/N/positive stay the extracted inductive types",
